@@ -109,6 +109,20 @@ pub(crate) fn park(location: Location) {
     }
 }
 
+/// Blocks the current thread until another thread makes it runnable again.
+/// Unlike `park`, this is not affected by `unpark`.
+pub(crate) fn block(location: Location) {
+    let switch = execution(|execution| {
+        execution.threads.active_mut().set_blocked(location);
+        execution.threads.active_mut().operation = None;
+        execution.schedule()
+    });
+
+    if switch {
+        Scheduler::switch();
+    }
+}
+
 /// Add an execution branch point.
 fn branch<F, R>(f: F) -> R
 where
